@@ -67,20 +67,12 @@ async def _tcp_history(fx, events, virtual_obs, sid):
                 else:
                     obs.append(('no-init',))
                 continue
-            if ev in ('config1', 'config2'):
-                d = {'type': 'config', 'sid': sid, 'content': pickle.dumps(fx.c1 if ev == 'config1' else fx.c2)}
-            elif ev in ('upload1', 'upload2'):
-                d = {'type': 'upload_edb', 'sid': sid, 'content': fx.e1 if ev == 'upload1' else fx.e2}
-            elif ev == 'search':
-                d = {'type': 'token', 'sid': sid, 'content': fx.tok, 'token_digest': fx.tok_digest}
-            elif ev == 'foreign-sid':
-                d = {'type': 'config', 'sid': 'someone-else', 'content': pickle.dumps(fx.c2)}
-            else:
-                d = {'type': 'bogus', 'sid': sid, 'content': b'x'}
-            try:
-                await box['ws'].send(pickle.dumps(d))
-            except Exception:
-                pass
+            from mc.checks import c10 as _c10
+            for d in _c10.messages_for(fx, sid, ev):
+                try:
+                    await box['ws'].send(pickle.dumps(d))
+                except Exception:
+                    pass
             start = cursor
             if vobs[0] == 'nothing':
                 await asyncio.sleep(0.3)
